@@ -463,11 +463,16 @@ def main(argv):
 
     # directed search when a proof or the correspondence broke and no failing input is known yet
     searched = 0
-    if (broken or disagreements) and not violations and can_run and not replay:
+    known_keys = {k["key"] for k in load_known() if k.get("property") == prop and k.get("status", "open") == "open"}
+
+    def unknown_violations():
+        return [v for v in violations if v[0].split(" ")[0] not in known_keys]
+
+    if (broken or disagreements) and not unknown_violations() and can_run and not replay:
         budget = 60 if tier == "quick" else 300
         ts = time.time()
         r = 0
-        while time.time() - ts < budget and not violations:
+        while time.time() - ts < budget and not unknown_violations():
             r += 1
             recs = safe_pair(prop, seed * 7919 + r, max(cfg["quick"], 2000) * 3, "search")
             if not recs:
